@@ -138,7 +138,7 @@ func main() {
 			}
 		})
 		maxOps := c.N(200, 200)
-		c.Cases("staged", c.N(40000, 2500000), func(k *mon.Case) {
+		c.Cases("staged", c.N(40000, 800000), func(k *mon.Case) {
 			mo := maxOps
 			if !c.Quick() && k.Index%4 == 0 {
 				mo = 400
@@ -152,7 +152,7 @@ func main() {
 			k.Sample(map[string]any{"ops": len(p.Ops), "views": len(p.Views) + 1, "initial_keys": len(p.Init), "root_prefix": p.RootPrefix, "first_ops": p.Ops[:6], "findings": len(fs)})
 			emitStaged(k, p, fs)
 		})
-		c.Cases("db", c.N(30000, 1500000), func(k *mon.Case) {
+		c.Cases("db", c.N(30000, 400000), func(k *mon.Case) {
 			p := genDBProgram(k.R, 120)
 			st := newStats()
 			fs := runDB(p, st)
